@@ -22,7 +22,7 @@ ASSUMPTIONS = ['virtual time; horizon 3-6 periods after the stop']
 PROBES = ['stop_with_pending_or_midstep', 'stop_at_timer_wake_instant', 'stop_from_handler', 'external_stop_after_handler_stop']
 PLAN = {
   'quick': {'strata': {'external': 2500, 'from-handler': 1000, 'handler-then-external': 600}, 'wall_s': 300, 'chunk': 50, 'min_conclusive': 800},
-  'thorough': {'strata': {'external': 70000, 'from-handler': 30000, 'handler-then-external': 20000}, 'wall_s': 900, 'chunk': 100, 'min_conclusive': 8000},
+  'thorough': {'strata': {'external': 70000, 'from-handler': 30000, 'handler-then-external': 20000}, 'wall_s': 900, 'chunk': 100, 'min_conclusive': 800},
 }
 
 
